@@ -509,6 +509,12 @@ func dialCloseScenario(mode string) string {
 	started := make(chan struct{}, 1)
 	release := make(chan struct{})
 	v := newVConn()
+	if mode == "close-peer-gone" {
+		// … and the connection the dialer finally hands out is to a peer that has gone: the hello
+		// cannot be written
+		v.failWrites = true
+		mode = "close"
+	}
 	dialer := func(ctx context.Context, network, addr string) (net.Conn, error) {
 		started <- struct{}{}
 		<-release
